@@ -105,10 +105,12 @@ static void c03_case(uint64_t idx)
 	}
 	(void)preset; (void)preset_len;
 	bool mutated = false; char md[160] = "";
+	vbuf orig = {0}; vbuf_append(&orig, data.p, data.n);
 	if (vrng_chance(&r, 3, 5)) {
 		mutate(&r, &data, md, sizeof(md)); mutated = true;
 		if (kind == SK_XZ && vrng_chance(&r, 1, 2)) xz_fix_header_crcs(&data);
 	}
+	bool reuse = vrng_chance(&r, 1, 5) && kind != SK_BLOCK;
 	hx_sample("c03 %s%s%s (%zu bytes)", desc, mutated ? " MUT:" : "", md, data.n);
 	// --- refdec ---
 	rd_result R; memset(&R, 0, sizeof(R));
@@ -151,6 +153,7 @@ static void c03_case(uint64_t idx)
 	}
 	char key[200];
 	if (have_lib) {
+		if (reuse) { spec.warm_in = orig.p; spec.warm_n = orig.n; hx_count("reused_handle_cases", 1); }
 		lres L; run_lib(&spec, data.p, data.n, LZMA_FINISH, &L);
 		hx_eval();
 		int vc = rd_class(&R);
@@ -208,7 +211,7 @@ static void c03_case(uint64_t idx)
 	}
 	for (unsigned i = 0; i < 4; ++i) free(tofree[i]);
 	rd_result_free(&R);
-	vbuf_free(&data); vbuf_free(&plain);
+	vbuf_free(&data); vbuf_free(&plain); vbuf_free(&orig);
 	if (g_valid) gstream_free(&g);
 }
 
@@ -392,6 +395,9 @@ static void c16_case(uint64_t idx)
 		if (ncorpus && gen_corpus(&r, &g, corpus, ncorpus)) { g_valid = true; fmt = g.sub == SK_XZ ? F_XZ : (g.sub == SK_ALONE ? F_LZMA : F_LZ); vbuf_append(&data, g.data.p, g.data.n); snprintf(desc, sizeof(desc), "%s", g.desc); }
 		else { fmt = F_LZ; synth_lzip(&r, &so, &data, &plain, &info); snprintf(desc, sizeof(desc), "synth:%s", info.desc); }
 	}
+	vbuf orig = {0}; vbuf_append(&orig, data.p, data.n);
+	bool reuse = vrng_chance(&r, 1, 5);
+	if (reuse) hx_count("reused_handle_cases", 1);
 	// variations: concatenation, padding, trailing data, mutation
 	char md[200] = ""; size_t mw = 0;
 	unsigned v = vrng_below(&r, 10);
@@ -427,6 +433,7 @@ static void c16_case(uint64_t idx)
 		if (df == F_LZMA) { rd_alone_decode(data.p, data.n, lim, &R); s.kind = D_ALONE; }
 		else if (df == F_LZ) { rd_lzip_decode(data.p, data.n, conc ? RD_CONCATENATED : 0, lim, &R); s.kind = D_LZIP; s.flags = flags; }
 		else { rd_xz_decode(data.p, data.n, conc ? RD_CONCATENATED : 0, lim, &R); s.kind = D_STREAM; s.flags = flags; }
+		if (reuse) { s.warm_in = orig.p; s.warm_n = orig.n; }
 		lres L; run_lib(&s, data.p, data.n, fin, &L); hx_eval();
 		int vc = rd_class(&R);
 		if (lib_noverdict(&L)) vc = V_NOVERDICT;
@@ -482,6 +489,7 @@ static void c16_case(uint64_t idx)
 	// --- auto-detection ---
 	{
 		dec_spec sa; memset(&sa, 0, sizeof(sa)); sa.memlimit = UINT64_MAX; sa.kind = D_AUTO; sa.flags = flags;
+		if (reuse) { sa.warm_in = orig.p; sa.warm_n = orig.n; }
 		lres LA; run_lib(&sa, data.p, data.n, fin, &LA); hx_eval();
 		if (detected == 0) {
 			// unrecognised by the documented rules -> LZMA_FORMAT_ERROR (needs enough bytes to decide)
@@ -529,7 +537,7 @@ static void c16_case(uint64_t idx)
 		if (fmt == F_LZ) { hx_count(info.lzip_v0 ? "lzip_v0" : "lzip_v1", 1); if (info.trailing) { char nm[40]; snprintf(nm, sizeof(nm), "lzip_trailing_prefix%u", info.trailing_magic_prefix); hx_count(nm, 1); } }
 	}
 	hx_distinct(vhash(data.p, data.n, vhash(&flags, 4, VHASH_INIT)), data.n > 13);
-	vbuf_free(&data); vbuf_free(&plain);
+	vbuf_free(&data); vbuf_free(&plain); vbuf_free(&orig);
 	if (g_valid) gstream_free(&g);
 }
 
